@@ -11,7 +11,8 @@ fail to compile, and with it `Properties/C09.lean` and `Properties/C15.lean`
 (`geometry_layer_translated`).
 
 C++ `int` / `long long` are `Int` on both sides (the framework-wide convention): the equalities say
-nothing about overflow.
+nothing about overflow.  The loop functions (`hpwl`, `computePlacementArea`) start from INT_MAX / INT_MIN
+sentinels and equal the models under an explicit, decidable int-range hypothesis (`PinsInInt`, `RowsInInt`).
 -/
 namespace ColoVerif.GeomTie
 open ColoVerif
@@ -81,5 +82,168 @@ theorem gen_Circuit_pinYOffset_eq_model : Gen.Geom.Circuit_pinYOffset = Circuit.
   simp only [Gen.Geom.Circuit_pinYOffset, Circuit.pinYOffset, gen_Circuit_placedHeight_eq_model,
     gen_Circuit_orientation_eq_model, gen_isTurn_eq_model]
   cases orient <;> rfl
+
+/-! ### loops: `Circuit::hpwl`, `Circuit::computePlacementArea`, `Circuit::rowHeight`
+
+The generated definitions are `List.foldl`s of named step functions starting from the C++ sentinels
+`std::numeric_limits<int>::max()/min()`; the hand-written models use `lmin`/`lmax` (fold from the first
+element).  The two agree exactly when the first folded value lies between the sentinels, i.e. when the
+coordinates are C++ `int`s — which is what `PinsInInt` / `RowsInInt` say (decidable; the examples at the end
+show that the hypothesis cannot be dropped: with unbounded `Int` a coordinate beyond INT_MAX is clipped by
+the sentinel).  `rowHeight` has no sentinel and is equal unconditionally; `none` = throws. -/
+
+theorem foldl_min_map {α : Type} (f : α → Int) (l : List α) (a : Int) :
+    l.foldl (fun m e => min (f e) m) a = (l.map f).foldl min a := by
+  induction l generalizing a with
+  | nil => rfl
+  | cons x xs ih => rw [List.foldl_cons, List.map_cons, List.foldl_cons, Int.min_comm]; exact ih _
+
+theorem foldl_step4 {α : Type} (f1 f2 f3 f4 : α → Int) (l : List α) (a b c d : Int) :
+    l.foldl (fun (s : Int × Int × Int × Int) e =>
+        (min (f1 e) s.1, max (f2 e) s.2.1, min (f3 e) s.2.2.1, max (f4 e) s.2.2.2)) (a, b, c, d)
+      = ((l.map f1).foldl min a, (l.map f2).foldl max b, (l.map f3).foldl min c, (l.map f4).foldl max d) := by
+  induction l generalizing a b c d with
+  | nil => rfl
+  | cons x xs ih =>
+    rw [List.foldl_cons, List.map_cons, List.map_cons, List.map_cons, List.map_cons, List.foldl_cons, List.foldl_cons,
+      List.foldl_cons, List.foldl_cons, Int.min_comm a, Int.max_comm b, Int.min_comm c, Int.max_comm d]
+    exact ih _ _ _ _
+
+theorem foldl_min_sentinel (x : Int) (xs : List Int) (M : Int) (h : x ≤ M) :
+    (x :: xs).foldl min M = Circuit.lmin 0 (x :: xs) := by
+  have : min M x = x := by omega
+  simp only [List.foldl_cons, Circuit.lmin, this]
+
+theorem foldl_max_sentinel (x : Int) (xs : List Int) (M : Int) (h : M ≤ x) :
+    (x :: xs).foldl max M = Circuit.lmax 0 (x :: xs) := by
+  have : max M x = x := by omega
+  simp only [List.foldl_cons, Circuit.lmax, this]
+
+theorem foldl_add_sum {α : Type} (step : Int → α → Int) (g : α → Int) (l : List α)
+    (h : ∀ e ∈ l, ∀ a, step a e = a + g e) (a0 : Int) : l.foldl step a0 = a0 + (l.map g).sum := by
+  induction l generalizing a0 with
+  | nil => simp
+  | cons x xs ih =>
+    rw [List.foldl_cons, h x (by simp), ih (fun e he => h e (by simp [he]))]
+    simp only [List.map_cons, List.sum_cons]; omega
+
+/-- every pin position is a C++ `int` -/
+def PinsInInt (c : Circuit) : Prop :=
+  ∀ n ∈ c.nets, ∀ p ∈ n.pins, -2147483648 ≤ c.pinX p ∧ c.pinX p ≤ 2147483647 ∧
+    -2147483648 ≤ c.pinY p ∧ c.pinY p ≤ 2147483647
+
+instance (c : Circuit) : Decidable (PinsInInt c) := by unfold PinsInInt; exact inferInstance
+
+theorem hpwl_step2_eq (c : Circuit) : Gen.Geom.Circuit_hpwl_step2 c =
+    fun s p => (min (c.pinX p) s.1, max (c.pinX p) s.2.1, min (c.pinY p) s.2.2.1, max (c.pinY p) s.2.2.2) := by
+  funext s p
+  simp only [Gen.Geom.Circuit_hpwl_step2, Circuit.pinX, Circuit.pinY, gen_Circuit_pinXOffset_eq_model,
+    gen_Circuit_pinYOffset_eq_model, gen_Circuit_x_eq_model, gen_Circuit_y_eq_model]
+
+theorem hpwl_step1_eq (c : Circuit) (n : Net)
+    (h : ∀ p ∈ n.pins, -2147483648 ≤ c.pinX p ∧ c.pinX p ≤ 2147483647 ∧ -2147483648 ≤ c.pinY p ∧ c.pinY p ≤ 2147483647)
+    (a : Int) : Gen.Geom.Circuit_hpwl_step1 c a n = a + c.netHpwl n := by
+  obtain ⟨wm, we, pins⟩ := n
+  cases pins with
+  | nil => simp [Gen.Geom.Circuit_hpwl_step1, Circuit.netHpwl, Circuit.lmin, Circuit.lmax]
+  | cons p ps =>
+    obtain ⟨h1, h2, h3, h4⟩ := h p (by simp)
+    have hg : ((((p :: ps).length : Nat) : Int) == (0 : Int)) = false := by
+      simp only [List.length_cons, beq_eq_false_iff_ne, ne_eq]; omega
+    simp only [Gen.Geom.Circuit_hpwl_step1, hg, Bool.false_eq_true, if_false, Gen.Geom.Circuit_hpwl_loop2,
+      hpwl_step2_eq, foldl_step4, Circuit.netHpwl, List.map_cons]
+    have hM : (Gen.Geom.numeric_limits_int_max : Int) = 2147483647 := rfl
+    have hm : (Gen.Geom.numeric_limits_int_min : Int) = -2147483648 := by decide
+    rw [foldl_min_sentinel (c.pinX p) _ _ (by omega), foldl_max_sentinel (c.pinX p) _ _ (by omega),
+      foldl_min_sentinel (c.pinY p) _ _ (by omega), foldl_max_sentinel (c.pinY p) _ _ (by omega)]
+    exact Int.add_assoc _ _ _
+
+theorem gen_Circuit_hpwl_eq_model (c : Circuit) (h : PinsInInt c) : Gen.Geom.Circuit_hpwl c = c.hpwl := by
+  simp only [Gen.Geom.Circuit_hpwl, Gen.Geom.Circuit_hpwl_loop1, Circuit.hpwl]
+  rw [foldl_add_sum (Gen.Geom.Circuit_hpwl_step1 c) c.netHpwl c.nets (fun n hn a => hpwl_step1_eq c n (h n hn) a)]
+  omega
+
+/-- every row coordinate is a C++ `int` -/
+def RowsInInt (c : Circuit) : Prop :=
+  ∀ r ∈ c.rows, -2147483648 ≤ r.rect.minX ∧ r.rect.minX ≤ 2147483647 ∧ -2147483648 ≤ r.rect.maxX ∧ r.rect.maxX ≤ 2147483647 ∧
+    -2147483648 ≤ r.rect.minY ∧ r.rect.minY ≤ 2147483647 ∧ -2147483648 ≤ r.rect.maxY ∧ r.rect.maxY ≤ 2147483647
+
+instance (c : Circuit) : Decidable (RowsInInt c) := by unfold RowsInInt; exact inferInstance
+
+theorem gen_Circuit_computePlacementArea_eq_model (c : Circuit) (h : RowsInInt c) :
+    Gen.Geom.Circuit_computePlacementArea c = c.placementArea := by
+  obtain ⟨cells, nets, rows⟩ := c
+  cases rows with
+  | nil => rfl
+  | cons r rs =>
+    obtain ⟨h1, h2, h3, h4, h5, h6, h7, h8⟩ := h r (by simp)
+    have hM : (Gen.Geom.numeric_limits_int_max : Int) = 2147483647 := rfl
+    have hm : (Gen.Geom.numeric_limits_int_min : Int) = -2147483648 := by decide
+    have hs : Gen.Geom.Circuit_computePlacementArea_step1 = fun s (row : Row) =>
+        (min row.rect.minX s.1, max row.rect.maxX s.2.1, min row.rect.minY s.2.2.1, max row.rect.maxY s.2.2.2) := rfl
+    simp only [Gen.Geom.Circuit_computePlacementArea, Gen.Geom.Circuit_computePlacementArea_loop1, hs, foldl_step4,
+      List.isEmpty_cons, Bool.false_eq_true, if_false, Circuit.placementArea, List.map_cons, gen_Rectangle_ctor_eq_model]
+    rw [foldl_min_sentinel r.rect.minX _ _ (by omega), foldl_max_sentinel r.rect.maxX _ _ (by omega),
+      foldl_min_sentinel r.rect.minY _ _ (by omega), foldl_max_sentinel r.rect.maxY _ _ (by omega)]
+
+theorem rowHeight_loop_none (c : Circuit) (l : List Row) : l.foldl (Gen.Geom.Circuit_rowHeight_step1 c) none = none := by
+  induction l with
+  | nil => rfl
+  | cons x xs ih => rw [List.foldl_cons]; exact ih
+
+theorem rowHeight_loop_some (c : Circuit) (l : List Row) :
+    l.foldl (Gen.Geom.Circuit_rowHeight_step1 c) (some ()) =
+      if l.all (fun r' => r'.rect.height == (c.rows.getD 0 default).rect.height) then some () else none := by
+  induction l with
+  | nil => rfl
+  | cons x xs ih =>
+    have hstep : Gen.Geom.Circuit_rowHeight_step1 c (some ()) x =
+        if (x.rect.height != (c.rows.getD 0 default).rect.height) = true then none else some () := rfl
+    rw [List.foldl_cons, List.all_cons, hstep]
+    by_cases hx : x.rect.height = (c.rows.getD 0 default).rect.height
+    · rw [if_neg (by rw [hx]; simp only [bne_self_eq_false, Bool.false_eq_true, not_false_eq_true]), ih]
+      simp only [hx, beq_self_eq_true, Bool.true_and]
+    · rw [if_pos (by simp only [bne_iff_ne, ne_eq, hx, not_false_eq_true]), rowHeight_loop_none]
+      simp only [beq_eq_false_iff_ne.mpr hx, Bool.false_and, Bool.false_eq_true, if_false]
+
+/-- `Circuit::rowHeight` — no sentinel, no hypothesis: `none` (throws) for no rows or rows of different heights -/
+theorem gen_Circuit_rowHeight_eq_model : Gen.Geom.Circuit_rowHeight = Circuit.rowHeight := by
+  funext c
+  obtain ⟨cells, nets, rows⟩ := c
+  cases rows with
+  | nil => rfl
+  | cons r rs =>
+    have hg : ((((r :: rs).length : Nat) : Int) == (0 : Int)) = false := by
+      simp only [List.length_cons, beq_eq_false_iff_ne, ne_eq]; omega
+    simp only [Gen.Geom.Circuit_rowHeight, hg, Bool.false_eq_true, if_false, Gen.Geom.Circuit_rowHeight_loop1,
+      rowHeight_loop_some, Circuit.rowHeight, List.getD_cons_zero, List.all_cons, beq_self_eq_true, Bool.true_and,
+      gen_Rectangle_height_eq_model]
+    by_cases ha : (rs.all fun r' => r'.rect.height == r.rect.height) = true
+    · simp only [ha, if_true]
+    · simp only [ha, Bool.false_eq_true, if_false]
+
+
+/-- the four facts about an empty row list: the C++ returns `Rectangle(0, 0, 0, 0)` / throws, like the model -/
+theorem gen_no_rows (c : Circuit) (h : c.rows = []) :
+    Gen.Geom.Circuit_computePlacementArea c = ⟨0, 0, 0, 0⟩ ∧ c.placementArea = ⟨0, 0, 0, 0⟩ ∧
+    Gen.Geom.Circuit_rowHeight c = none ∧ c.rowHeight = none := by
+  obtain ⟨cells, nets, rows⟩ := c
+  subst h
+  exact ⟨rfl, rfl, rfl, rfl⟩
+
+/-! non-vacuity of the hypotheses, and their necessity -/
+
+example : PinsInInt ⟨[⟨4, 2, 0, 0, .N, false, false, .ANY⟩, ⟨3, 2, 10, 5, .W, false, false, .ANY⟩],
+    [⟨1, 0, [⟨0, 1, 1⟩, ⟨1, 0, 2⟩]⟩, ⟨1, 0, []⟩], []⟩ := by decide
+example : Gen.Geom.Circuit_hpwl ⟨[⟨4, 2, 0, 0, .N, false, false, .ANY⟩, ⟨3, 2, 10, 5, .W, false, false, .ANY⟩],
+    [⟨1, 0, [⟨0, 1, 1⟩, ⟨1, 0, 2⟩]⟩, ⟨1, 0, []⟩], []⟩ = 9 + 4 := by decide
+/-- beyond the `int` range the sentinel clips: a single pin at x = 3·10^9 has extent 0 in the model but
+`3·10^9 − INT_MAX` in the (unbounded-`Int` reading of the) C++ loop -/
+example : Gen.Geom.Circuit_hpwl ⟨[⟨1, 1, 3000000000, 0, .N, false, false, .ANY⟩], [⟨1, 0, [⟨0, 0, 0⟩]⟩], []⟩ = 852516353 ∧
+    Circuit.hpwl ⟨[⟨1, 1, 3000000000, 0, .N, false, false, .ANY⟩], [⟨1, 0, [⟨0, 0, 0⟩]⟩], []⟩ = 0 := by decide
+example : RowsInInt ⟨[], [], [⟨⟨0, 10, 0, 4⟩, .N⟩, ⟨⟨-5, 8, 4, 8⟩, .FS⟩]⟩ := by decide
+example : Gen.Geom.Circuit_computePlacementArea ⟨[], [], [⟨⟨0, 10, 0, 4⟩, .N⟩, ⟨⟨-5, 8, 4, 8⟩, .FS⟩]⟩ = ⟨-5, 10, 0, 8⟩ ∧
+    Gen.Geom.Circuit_rowHeight ⟨[], [], [⟨⟨0, 10, 0, 4⟩, .N⟩, ⟨⟨-5, 8, 4, 8⟩, .FS⟩]⟩ = some 4 ∧
+    Gen.Geom.Circuit_rowHeight ⟨[], [], [⟨⟨0, 10, 0, 4⟩, .N⟩, ⟨⟨-5, 8, 4, 9⟩, .FS⟩]⟩ = none := by decide
 
 end ColoVerif.GeomTie
